@@ -1,11 +1,11 @@
 (* IpmProofs.v — proofs about the IPM reader / writer model (Ipm.v): a bad record is reported with its own number
-   and raw bytes (C10), instances are independent (C06), and an IPM file round-trips whenever every message does
-   (ip_roundtrip_from; IpmRoundtrip.v discharges the premise with c01_roundtrip). *)
+   and raw bytes (C10), instances are independent (C06), and IPM files round-trip (C06: ip_roundtrip_from, whose
+   premise — every message round-trips — is c01_roundtrip of IsoRoundtrip.v). *)
 From Coq Require Import List Arith NArith Lia Bool.
 From Coq Require Import Strings.Byte.
 Require Import CU.model.Prim CU.model.Types CU.model.Codec CU.model.Block CU.model.Vbs CU.model.Iso CU.model.Ipm.
 Require Import CU.spec.IsoSpec CU.spec.FramingSpec.
-Require Import CU.proofs.BlockProofs CU.proofs.VbsProofs.
+Require Import CU.proofs.BlockProofs CU.proofs.VbsProofs CU.proofs.IsoRoundtrip.
 Import ListNotations.
 Open Scope nat_scope.
 
@@ -342,3 +342,16 @@ Proof.
 Qed.
 
 End IpmFile.
+
+Lemma c06_roundtrip (B : nat) (Bpos : 0 < B) (maxlen : N) (maxlen_ok : (maxlen < 2 ^ 32)%N) :
+  forall cfg cd blocked ms,
+  wf_cfgb cfg = true -> codec_okb cd = true -> Forall (fits cfg cd maxlen) ms ->
+  exists file ds, ipm_file B cfg cd blocked ms = Ok file /\
+                  iread_all B maxlen cfg cd file blocked = Ok (ds, End) /\
+                  Forall2 (agrees cfg) ms ds.
+Proof.
+  intros cfg cd blocked ms Hcfg Hcd Hms.
+  apply (ip_roundtrip_from B Bpos maxlen maxlen_ok cfg cd); [|exact Hms].
+  intros m Hm. destruct (c01_roundtrip cfg cd false m Hcfg Hcd Hm) as (b & d & H1 & H2 & H3 & H4).
+  exists b, d. split; [exact H1|]. split; [exact H2|]. split; [exact H3|exact H4].
+Qed.
